@@ -234,6 +234,16 @@ type Stub struct {
 	gaveUp   bool
 	// Answers records, in order, what every push-pull call of this stub returned to its caller (canonical text).
 	Answers []map[string]string
+	// Pushes records, per pack of every push-pull call, what was sent and what came back (for the announcement oracle)
+	Pushes []PushInfo
+}
+
+// PushInfo describes one pack of one push-pull exchange.
+type PushInfo struct {
+	Collection, Key, DUID, CUID string
+	NOps                        int    // operations the request carried
+	Sseq                        uint64 // end of the log according to the answer
+	Refused                     bool   // error bit or transport error
 }
 
 // canonAnswer renders a push-pull answer, per datatype key, without anything that may legitimately differ between two
@@ -330,6 +340,17 @@ func (s *Stub) ProcessPushPull(ctx context.Context, in *model.PushPullMessage, _
 	}
 	s.mu.Lock()
 	s.Answers = append(s.Answers, canonAnswer(out, err))
+	for _, rp := range in.PushPullPacks {
+		pi := PushInfo{Collection: in.Collection, Key: rp.Key, CUID: in.Cuid, NOps: len(rp.Operations), Refused: true}
+		if err == nil && out != nil {
+			for _, ap := range out.PushPullPacks {
+				if ap.Key == rp.Key {
+					pi.DUID, pi.Sseq, pi.Refused = ap.DUID, ap.CheckPoint.GetSseq(), ap.GetPushPullPackOption().HasErrorBit()
+				}
+			}
+		}
+		s.Pushes = append(s.Pushes, pi)
+	}
 	s.mu.Unlock()
 	s.Sched.Gate("rpc.response:pushpull:" + s.Name)
 	if fault == RPCDropResponse {
